@@ -392,45 +392,36 @@ Definition key_declares (use : str) (ks : list keydesc) (c : str) : Prop :=
   exists k c0, In k ks /\ use_ok use k = true /\ In c0 (kd_certs k) /\ c = repack_cert c0.
 
 Lemma extract_loop_char use ks : forall res,
-  match extract_loop use ks res with
-  | Ok l => (forall c, In c l <-> In c res \/ key_declares use ks c) /\ (NoDup res -> NoDup l)
-  | Err x => x = KeyError /\ exists k, In k ks /\ use_ok use k = true /\ kd_certs k = []
-  end.
+  (forall c, In c (extract_loop use ks res) <-> In c res \/ key_declares use ks c) /\
+  (NoDup res -> NoDup (extract_loop use ks res)).
 Proof.
   induction ks as [|k ks IH]; intros res; cbn [extract_loop].
   - split; [|auto]. intros c. split; [auto|]. intros [H|(k & c0 & [] & _)]; exact H.
   - destruct (use_ok use k) eqn:Eu.
-    + destruct (kd_certs k) as [|c1 cs] eqn:Ec; cbn [is_nil].
-      * split; [reflexivity|]. exists k. repeat split; auto. now left.
-      * rewrite <- Ec. specialize (IH (fold_left add_new (map repack_cert (kd_certs k)) res)).
-        destruct (extract_loop use ks _) as [l|x].
-        -- destruct IH as [HIn Hnd]. split.
-           ++ intros c. rewrite HIn, add_new_fold_In, in_map_iff. split.
-              ** intros [[H|(c0 & <- & Hc0)]|(k' & c0 & Hk & Hu & Hc & ->)]; auto.
-                 --- right. exists k, c0. repeat split; auto. now left.
-                 --- right. exists k', c0. repeat split; auto. now right.
-              ** intros [H|(k' & c0 & [<-|Hk] & Hu & Hc & ->)]; auto.
-                 --- left. right. now exists c0.
-                 --- right. exists k', c0. repeat split; auto.
-           ++ intros H. apply Hnd. now apply add_new_fold_NoDup.
-        -- destruct IH as [-> (k' & Hk & Hu & Hc)]. split; [reflexivity|]. exists k'. repeat split; auto. now right.
-    + specialize (IH res). destruct (extract_loop use ks res) as [l|x].
-      * destruct IH as [HIn Hnd]. split; [|exact Hnd]. intros c. rewrite HIn. split.
-        -- intros [H|(k' & c0 & Hk & Hu & Hc & ->)]; auto. right. exists k', c0. repeat split; auto. now right.
-        -- intros [H|(k' & c0 & [<-|Hk] & Hu & Hc & ->)]; auto; [congruence|].
-           right. exists k', c0. repeat split; auto.
-      * destruct IH as [-> (k' & Hk & Hu & Hc)]. split; [reflexivity|]. exists k'. repeat split; auto. now right.
+    + specialize (IH (fold_left add_new (map repack_cert (kd_certs k)) res)). destruct IH as [HIn Hnd]. split.
+      * intros c. rewrite HIn, add_new_fold_In, in_map_iff. split.
+        -- intros [[H|(c0 & <- & Hc0)]|(k' & c0 & Hk & Hu & Hc & ->)]; auto.
+           ++ right. exists k, c0. repeat split; auto. now left.
+           ++ right. exists k', c0. repeat split; auto. now right.
+        -- intros [H|(k' & c0 & [<-|Hk] & Hu & Hc & ->)]; auto.
+           ++ left. right. now exists c0.
+           ++ right. exists k', c0. repeat split; auto.
+      * intros H. apply Hnd. now apply add_new_fold_NoDup.
+    + specialize (IH res). destruct IH as [HIn Hnd]. split; [|exact Hnd]. intros c. rewrite HIn. split.
+      * intros [H|(k' & c0 & Hk & Hu & Hc & ->)]; auto. right. exists k', c0. repeat split; auto. now right.
+      * intros [H|(k' & c0 & [<-|Hk] & Hu & Hc & ->)]; auto; [congruence|].
+        right. exists k', c0. repeat split; auto.
 Qed.
 
 (* SPECIFICATION: certificate c is declared for [use] by a role in [rs] *)
 Definition role_declares (use : str) (rs : list role) (c : str) : Prop :=
   exists r k c0, In r rs /\ In k (r_keys r) /\ use_ok use k = true /\ In c0 (kd_certs k) /\ c = repack_cert c0.
 
-Lemma extract_certs_ok use rs l :
-  extract_certs use rs = Ok l -> NoDup l /\ forall c, In c l <-> role_declares use rs c.
+Lemma extract_certs_ok use rs :
+  NoDup (extract_certs use rs) /\ forall c, In c (extract_certs use rs) <-> role_declares use rs c.
 Proof.
-  unfold extract_certs. intros H. pose proof (extract_loop_char use (flat_map r_keys rs) []) as C.
-  rewrite H in C. destruct C as [HIn Hnd]. split; [apply Hnd; constructor|].
+  unfold extract_certs. destruct (extract_loop_char use (flat_map r_keys rs) []) as [HIn Hnd].
+  split; [apply Hnd; constructor|].
   intros c. rewrite HIn. unfold key_declares, role_declares. split.
   - intros [[]|(k & c0 & Hk & Hu & Hc & ->)]. apply in_flat_map in Hk as (r & Hr & Hk).
     exists r, k, c0. repeat split; auto.
@@ -438,35 +429,66 @@ Proof.
     apply in_flat_map. now exists r.
 Qed.
 
-Lemma extract_certs_err use rs x :
-  extract_certs use rs = Err x ->
-  x = KeyError /\ exists r k, In r rs /\ In k (r_keys r) /\ use_ok use k = true /\ kd_certs k = [].
+Lemma certs_any_ok use e ds :
+  forall c, In c (certs_any use e ds) <-> exists d, In d ds /\ role_declares use (roles_of e (descr_key d)) c.
 Proof.
-  unfold extract_certs. intros H. pose proof (extract_loop_char use (flat_map r_keys rs) []) as C.
-  rewrite H in C. destruct C as [-> (k & Hk & Hu & Hc)]. split; [reflexivity|].
-  apply in_flat_map in Hk as (r & Hr & Hk). exists r, k. repeat split; auto.
-Qed.
-
-Lemma certs_any_ok use e ds : forall l,
-  certs_any use e ds = Ok l ->
-  forall c, In c l <-> exists d, In d ds /\ role_declares use (roles_of e (descr_key d)) c.
-Proof.
-  induction ds as [|d ds IH]; intros l H c; cbn [certs_any] in H.
-  - injection H as <-. split; [intros []|intros (d & [] & _)].
+  induction ds as [|d ds IH]; intros c; cbn [certs_any].
+  - split; [intros []|intros (d & [] & _)].
   - destruct (roles_of e (descr_key d)) as [|r0 rs] eqn:Er.
-    + rewrite (IH _ H c). split.
+    + rewrite (IH c). split.
       * intros (d' & Hd & Hc). exists d'. split; [now right|exact Hc].
       * intros (d' & [<-|Hd] & Hc); [|now exists d'].
         rewrite Er in Hc. destruct Hc as (r & _ & _ & [] & _).
-    + rewrite <- Er in H. destruct (extract_certs use (roles_of e (descr_key d))) as [l1|x] eqn:E1; [|discriminate].
-      destruct (certs_any use e ds) as [l2|x] eqn:E2; [|discriminate]. injection H as <-.
-      rewrite in_app_iff, (IH _ eq_refl c). destruct (extract_certs_ok _ _ _ E1) as [_ H1]. rewrite H1. split.
+    + rewrite <- Er. rewrite in_app_iff, (IH c). destruct (extract_certs_ok use (roles_of e (descr_key d))) as [_ H1].
+      rewrite H1. split.
       * intros [Hc|(d' & Hd & Hc)]; [exists d; split; [now left|exact Hc]|exists d'; split; [now right|exact Hc]].
       * intros (d' & [<-|Hd] & Hc); [now left|right; now exists d'].
 Qed.
 
+(* ---- the code before proposed_fix/C03-1: a use-matching key descriptor without X509Data raised KeyError ---- *)
+Lemma extract_loop_before_fix_char use ks : forall res,
+  match extract_loop_before_fix use ks res with
+  | Ok l => l = extract_loop use ks res
+  | Err x => x = KeyError /\ exists k, In k ks /\ use_ok use k = true /\ kd_certs k = []
+  end.
+Proof.
+  induction ks as [|k ks IH]; intros res; cbn [extract_loop_before_fix extract_loop]; [reflexivity|].
+  destruct (use_ok use k) eqn:Eu.
+  - destruct (kd_certs k) as [|c1 cs] eqn:Ec; cbn [is_nil].
+    + split; [reflexivity|]. exists k. repeat split; auto. now left.
+    + rewrite <- Ec. specialize (IH (fold_left add_new (map repack_cert (kd_certs k)) res)).
+      destruct (extract_loop_before_fix use ks _) as [l|x]; [exact IH|].
+      destruct IH as [-> (k' & Hk & Hu & Hc)]. split; [reflexivity|]. exists k'. repeat split; auto. now right.
+  - specialize (IH res). destruct (extract_loop_before_fix use ks res) as [l|x]; [exact IH|].
+    destruct IH as [-> (k' & Hk & Hu & Hc)]. split; [reflexivity|]. exists k'. repeat split; auto. now right.
+Qed.
+
+Lemma extract_loop_before_fix_complete use ks : forall res,
+  (forall k, In k ks -> use_ok use k = true -> kd_certs k <> []) ->
+  extract_loop_before_fix use ks res = Ok (extract_loop use ks res).
+Proof.
+  intros res H. pose proof (extract_loop_before_fix_char use ks res) as C.
+  destruct (extract_loop_before_fix use ks res) as [l|x]; [now subst|].
+  destruct C as [_ (k & Hk & Hu & Hc)]. exfalso. exact (H k Hk Hu Hc).
+Qed.
+
+Lemma extract_certs_before_fix_char use rs :
+  match extract_certs_before_fix use rs with
+  | Ok l => l = extract_certs use rs
+  | Err x => x = KeyError /\ exists r k, In r rs /\ In k (r_keys r) /\ use_ok use k = true /\ kd_certs k = []
+  end.
+Proof.
+  unfold extract_certs_before_fix, extract_certs. pose proof (extract_loop_before_fix_char use (flat_map r_keys rs) []) as C.
+  destruct (extract_loop_before_fix use (flat_map r_keys rs) []) as [l|x]; [exact C|].
+  destruct C as [-> (k & Hk & Hu & Hc)]. split; [reflexivity|].
+  apply in_flat_map in Hk as (r & Hr & Hk). exists r, k. repeat split; auto.
+Qed.
+
 Lemma roles_of_In e typ r : In r (roles_of e typ) <-> In r (e_roles e) /\ r_type r = typ.
 Proof. unfold roles_of. rewrite filter_In, str_eqb_eq. tauto. Qed.
+
+Lemma Ok_inj {A} (a b : A) : @Ok A a = Ok b -> a = b.
+Proof. intros H. now injection H. Qed.
 
 (* every served certificate comes from a key descriptor of THAT entity whose
    use is the requested one or absent *)
@@ -484,12 +506,12 @@ Proof.
   { intros rs Hsub (r & k & c0 & Hr & Hk & Hu & Hc & ->) P HP. exists r, k, c0. repeat split; auto.
     unfold use_ok in Hu. destruct (kd_use k) as [u|]; [|now left]. right. apply str_eqb_eq in Hu. now subst. }
   destruct (str_eqb_spec d (s2l "any")) as [->|Hn].
-  - intros H Hc. apply (certs_any_ok _ _ _ _ H) in Hc as (d' & _ & Hc).
+  - intros H Hc. apply Ok_inj in H. subst l. apply certs_any_ok in Hc as (d' & _ & Hc).
     destruct (Hgen _ (fun r Hr => proj1 (proj1 (roles_of_In _ _ _) Hr)) Hc (fun _ => True) (fun _ _ => I))
       as (r & k & c0 & H1 & H2 & H3 & H4 & H5 & _).
     exists e, r, k, c0. repeat split; auto. intros Hx; contradiction.
   - destruct (roles_of e (descr_key d)) as [|r0 rs] eqn:Er; [discriminate|]. rewrite <- Er.
-    intros H Hc. apply extract_certs_ok in H as [_ H]. apply H in Hc.
+    intros H Hc. apply Ok_inj in H. subst l. apply (proj2 (extract_certs_ok _ _)) in Hc.
     destruct (Hgen _ (fun r Hr => proj1 (proj1 (roles_of_In _ _ _) Hr)) Hc (fun r => r_type r = descr_key d)
                    (fun r Hr => proj2 (proj1 (roles_of_In _ _ _) Hr)))
       as (r & k & c0 & H1 & H2 & H3 & H4 & H5 & H6).
@@ -505,7 +527,8 @@ Proof.
   unfold store_certs. intros Hn. destruct (store_get st eid) as [e|]; [|discriminate].
   destruct (str_eqb_spec d (s2l "any")) as [->|_]; [contradiction|].
   destruct (roles_of e (descr_key d)) as [|r0 rs] eqn:Er; [discriminate|]. rewrite <- Er.
-  intros H. apply extract_certs_ok in H as [Hnd H]. exists e. repeat split; auto; apply H.
+  intros H. apply Ok_inj in H. subst l. destruct (extract_certs_ok use (roles_of e (descr_key d))) as [Hnd H].
+  exists e. repeat split; auto; apply H.
 Qed.
 
 Lemma store_certs_any_exact st eid use l :
@@ -514,24 +537,69 @@ Lemma store_certs_any_exact st eid use l :
     forall c, In c l <-> exists d, In d ANY_ROLES /\ role_declares use (roles_of e (descr_key d)) c.
 Proof.
   unfold store_certs. destruct (store_get st eid) as [e|]; [|discriminate].
-  rewrite str_eqb_refl. intros H. exists e. split; [reflexivity|]. exact (certs_any_ok _ _ _ _ H).
+  rewrite str_eqb_refl. intros H. apply Ok_inj in H. subst l. exists e. split; [reflexivity|]. exact (certs_any_ok _ _ _).
 Qed.
 
-(* when does certs raise *)
+(* when does certs raise: unknown entity, or a named descriptor type the entity does not have - nothing else
+   (a key descriptor without X509Data is skipped) *)
 Lemma store_certs_err st eid d use x :
-  d <> s2l "any" -> store_certs st eid d use = Err x ->
+  store_certs st eid d use = Err x ->
   x = KeyError /\
   (store_get st eid = None \/
-   exists e, store_get st eid = Some e /\
-     (roles_of e (descr_key d) = [] \/
-      exists r k, In r (roles_of e (descr_key d)) /\ In k (r_keys r) /\ use_ok use k = true /\ kd_certs k = [])).
+   exists e, store_get st eid = Some e /\ d <> s2l "any" /\ roles_of e (descr_key d) = []).
 Proof.
-  unfold store_certs. intros Hn. destruct (store_get st eid) as [e|]; [|intros H; injection H as <-; auto].
-  destruct (str_eqb_spec d (s2l "any")) as [->|_]; [contradiction|].
+  unfold store_certs. destruct (store_get st eid) as [e|]; [|intros H; injection H as <-; auto].
+  destruct (str_eqb_spec d (s2l "any")) as [->|Hn]; [discriminate|].
+  destruct (roles_of e (descr_key d)) as [|r0 rs] eqn:Er; [|discriminate].
+  intros H; injection H as <-. split; [reflexivity|]. right. exists e. auto.
+Qed.
+
+(* ... and it answers in every other case *)
+Lemma store_certs_answers st eid d use e :
+  store_get st eid = Some e -> (d = s2l "any" \/ roles_of e (descr_key d) <> []) ->
+  exists l, store_certs st eid d use = Ok l.
+Proof.
+  intros He H. unfold store_certs. rewrite He. destruct (str_eqb_spec d (s2l "any")) as [->|Hn]; [eexists; reflexivity|].
+  destruct H as [H|H]; [contradiction|]. destruct (roles_of e (descr_key d)) as [|r0 rs]; [contradiction|]. eexists; reflexivity.
+Qed.
+
+(* the code before proposed_fix/C03-1: whenever it answered it gave today's answer; it raised KeyError in one more case *)
+Lemma certs_any_before_fix_char use e : forall ds,
+  match certs_any_before_fix use e ds with
+  | Ok l => l = certs_any use e ds
+  | Err x => x = KeyError /\ exists d r k, In d ds /\ In r (roles_of e (descr_key d)) /\ In k (r_keys r) /\
+                                          use_ok use k = true /\ kd_certs k = []
+  end.
+Proof.
+  induction ds as [|d ds IH]; cbn [certs_any_before_fix certs_any]; [reflexivity|].
   destruct (roles_of e (descr_key d)) as [|r0 rs] eqn:Er.
-  - intros H; injection H as <-. split; [reflexivity|]. right. exists e. auto.
-  - rewrite <- Er. intros H. apply extract_certs_err in H as [-> H]. split; [reflexivity|].
-    right. exists e. split; [reflexivity|]. right. exact H.
+  - destruct (certs_any_before_fix use e ds) as [l|x]; [exact IH|].
+    destruct IH as (-> & d' & r & k & Hd & Hr). split; [reflexivity|]. exists d', r, k. split; [now right|exact Hr].
+  - rewrite <- Er. pose proof (extract_certs_before_fix_char use (roles_of e (descr_key d))) as C.
+    destruct (extract_certs_before_fix use (roles_of e (descr_key d))) as [l1|y].
+    + subst l1. destruct (certs_any_before_fix use e ds) as [l2|y]; [now subst|].
+      destruct IH as (-> & d' & r & k & Hd & Hr). split; [reflexivity|]. exists d', r, k. split; [now right|exact Hr].
+    + destruct C as (-> & r & k & Hr & Hk & Hu & Hc). split; [reflexivity|]. exists d, r, k. repeat split; auto. now left.
+Qed.
+
+Lemma store_certs_before_fix_char st eid d use :
+  match store_certs_before_fix st eid d use with
+  | Ok l => store_certs st eid d use = Ok l
+  | Err x => x = KeyError /\
+      (store_certs st eid d use = Err KeyError \/
+       exists e r k, store_get st eid = Some e /\ In r (e_roles e) /\ In k (r_keys r) /\ use_ok use k = true /\ kd_certs k = [])
+  end.
+Proof.
+  unfold store_certs_before_fix, store_certs. destruct (store_get st eid) as [e|]; [|split; [reflexivity|now left]].
+  destruct (str_eqb d (s2l "any")).
+  - pose proof (certs_any_before_fix_char use e ANY_ROLES) as C. destruct (certs_any_before_fix use e ANY_ROLES) as [l|x]; [now subst|].
+    destruct C as (-> & d' & r & k & _ & Hr & Hk & Hu & Hc). split; [reflexivity|]. right.
+    apply roles_of_In in Hr as [Hr _]. exists e, r, k. repeat split; auto.
+  - destruct (roles_of e (descr_key d)) as [|r0 rs] eqn:Er; [split; [reflexivity|now left]|]. rewrite <- Er.
+    pose proof (extract_certs_before_fix_char use (roles_of e (descr_key d))) as C.
+    destruct (extract_certs_before_fix use (roles_of e (descr_key d))) as [l|x]; [now subst|].
+    destruct C as (-> & r & k & Hr & Hk & Hu & Hc). split; [reflexivity|]. right.
+    apply roles_of_In in Hr as [Hr _]. exists e, r, k. repeat split; auto.
 Qed.
 
 (* ------------------------------------------------------------------ *)
